@@ -907,6 +907,8 @@ class World(object):
             if conn is not None and name in ('recv', 'sendall'):
                 conn.reset = True
             raise OSError(errno.ECONNRESET, 'Connection reset by peer {injected at op %d %s} {}' % (i, name))
+        if f == 'runtimeerror':
+            raise RuntimeError('another arbitrary exception {injected at op %d %s} {0} {}' % (i, name))
         if f == 'valueerror':
             raise ValueError('arbitrary exception {injected at op %d %s} {0} {}' % (i, name))
         if f == 'timeout':
@@ -939,6 +941,8 @@ class World(object):
     def connect_verdict(self, conn, sa):
         k = self.n_connects
         self.n_connects += 1
+        if sa[0] in getattr(self, 'refuse_addrs', ()):
+            return OSError(errno.ECONNREFUSED, 'Connection refused (%s)' % (sa[0],))
         return self.connect_faults.get(k)
 
     def wrap(self, sock, hostname):
